@@ -158,7 +158,53 @@ def build_server():
             return ph.create_response(getattr(message, "id", None), val), None
         return h
     for name, val in CUSTOM_RESULTS.items():
-        ph.register_method(name, mk_result(val))
+        if not name.startswith("custom/kind_"):
+            ph.register_method(name, mk_result(val))
+    # the same, registered as other kinds of awaitable-returning callables
+    import functools
+
+    class CallableObject:
+        def __init__(self, val, fail=False):
+            self.val, self.fail, self.calls = val, fail, 0
+
+        async def __call__(self, message, session_id):
+            self.calls += 1
+            if self.fail:
+                raise RuntimeError("callable object failed")
+            return ph.create_response(getattr(message, "id", None), self.val), None
+
+        async def method(self, message, session_id):
+            return ph.create_response(getattr(message, "id", None), self.val), None
+
+    def passthrough(fn):
+        @functools.wraps(fn)
+        def wrapper(*a, **kw):
+            return fn(*a, **kw)         # hands the coroutine on
+        return wrapper
+
+    def returns_task(val, fail=False):
+        async def work(message):
+            if fail:
+                raise RuntimeError("task failed")
+            return ph.create_response(getattr(message, "id", None), val), None
+
+        def h(message, session_id):
+            return asyncio.ensure_future(work(message))
+        return h
+
+    async def with_extra(extra, message, session_id):
+        return ph.create_response(getattr(message, "id", None), extra), None
+
+    async def failing(message, session_id):
+        raise RuntimeError("decorated handler failed")
+    ph.register_method("custom/kind_callable_object", CallableObject(CUSTOM_RESULTS["custom/kind_callable_object"]))
+    ph.register_method("custom/kind_decorated", passthrough(mk_result(CUSTOM_RESULTS["custom/kind_decorated"])))
+    ph.register_method("custom/kind_returns_task", returns_task(CUSTOM_RESULTS["custom/kind_returns_task"]))
+    ph.register_method("custom/kind_partial", functools.partial(with_extra, CUSTOM_RESULTS["custom/kind_partial"]))
+    ph.register_method("custom/kind_bound_method", CallableObject(CUSTOM_RESULTS["custom/kind_bound_method"]).method)
+    ph.register_method("custom/raise_kind_callable_object", CallableObject(None, fail=True))
+    ph.register_method("custom/raise_kind_decorated", passthrough(failing))
+    ph.register_method("custom/raise_kind_returns_task", returns_task(None, fail=True))
 
     async def custom_awaits_cancelled(message, session_id):
         fut = asyncio.get_running_loop().create_future()
@@ -175,10 +221,17 @@ def build_server():
 
 
 CUSTOM_RESULTS = {"custom/result_none": None, "custom/result_empty": {}, "custom/result_list": [], "custom/result_zero": 0,
-                  "custom/result_false": False, "custom/result_str": "", "custom/result_nested_null": {"a": None, "b": [None]}}
+                  "custom/result_false": False, "custom/result_str": "", "custom/result_nested_null": {"a": None, "b": [None]},
+                  # handlers that are awaitable-returning callables of other kinds than a bare `async def` function
+                  "custom/kind_callable_object": {"kind": "object with async __call__"},
+                  "custom/kind_decorated": {"kind": "async def behind a pass-through decorator"},
+                  "custom/kind_returns_task": {"kind": "plain function returning a Task"},
+                  "custom/kind_partial": {"kind": "functools.partial of an async def"},
+                  "custom/kind_bound_method": {"kind": "bound async method"}}
 CUSTOM_RAISERS = ["custom/raise_noargs", "custom/raise_timeout", "custom/raise_assert", "custom/raise_intarg",
                   "custom/raise_twoargs", "custom/raise_keyerror", "custom/raise_unicode", "custom/raise_stopasync",
-                  "custom/raise_lookup", "custom/raise_badstr", "custom/raise_cancelled_inner"]
+                  "custom/raise_lookup", "custom/raise_badstr", "custom/raise_cancelled_inner",
+                  "custom/raise_kind_callable_object", "custom/raise_kind_decorated", "custom/raise_kind_returns_task"]
 RAISING_TOOLS = {"raise_value", "raise_key", "raise_runtime", "raise_type", "raise_timeout", "raise_custom",
                  "raise_unicode", "sync", "raise_noargs", "raise_assert", "raise_lookup", "raise_badstr", "raise_cancelled_inner"}
 GOOD_TOOLS = {"echo", "dict", "list", "none", "bytes", "obj", "caf\u00e9"}
